@@ -238,3 +238,14 @@ def metaLoaded (p : MetaParams α) (s : MetaState α) : MetaState α :=
   { f with hills := hs, nNew := if p.useGrids then 0 else hs.length }
 
 end Cv
+
+/-! ### rebinning from kept hills after a restart (`rebin_grids_after_restart`, colvarbias_meta.cpp) -/
+namespace Cv
+variable {α : Type} [Sc α]
+
+/-- the grids of a bias set up over the grid `g'` (which may differ from the one in the state) rebuilt from the hills the state
+    kept (`keepHills on`, `rebinGrids on`): new empty grids, every kept hill projected onto them -/
+def metaRebin (p : MetaParams α) (g' : GridDef α) (s : MetaState α) : MetaState α :=
+  { projectHills p (MetaState.empty g' true) s.hills with hills := s.hills, nNew := 0, offGrid := s.hills }
+
+end Cv
